@@ -20,12 +20,14 @@ from utype.utils import exceptions as uexc   # noqa: E402
 
 ID = "C18"
 LEVEL = "model_checking"
-RULE = ("(a) 9 recursive declarations (Optional['N'], 'N' = None, List['N'], Tuple['N', ...], Dict[str, 'N'], Union[int, 'N'], "
-        "any_of('N', None), mutual recursion through a second class, List[Optional['N']]) x max_depth in {None, 1, 2, 3, 4} x inputs of "
-        "data-class depth 1..6 with the nested value at list index 0 / 1 / 2, mapping key 'k' / '' / '0', either union branch, "
-        "plus self-containing dicts and lists; (b) 6 declarations with a counting leaf x depth 1..8 x width 1..3 x {valid, "
-        "lenient-only, one invalid leaf at the bottom}; state = one (declaration, limit, input); non-trivial when the input is "
-        "nested at least twice")
+RULE = ("(a) 13 recursive declarations (Optional['N'], 'N' = None, List['N'], Tuple['N', ...], Dict[str, 'N'], Union[int, 'N'], "
+        "any_of('N', None), mutual recursion through a second class, List[Optional['N']], @utype.dataclass, DataClass base, a declared "
+        "__init__ on a decorated class and on a Schema) x max_depth in {None, 1, 2, 3, 4} x inputs of "
+        "data-class depth 1..6 with the nested value at list index 0 / 1 / 2, mapping key 'k' / '' / '0', either union branch, plain or "
+        "wrapped in a one-element list / tuple at every level, plus self-containing dicts and lists (plain and wrapped); (b) 8 declarations "
+        "with a counting leaf x 4 strictness option sets x depth 1..12 (chains) / 1..8 (trees) x width 1..3 x {valid, lenient-only, one "
+        "invalid leaf at the bottom} and a self-containing input cut by max_depth 2..12; state = one (declaration, options, limit, "
+        "input); non-trivial when the input is nested at least twice")
 ASSUMPTIONS = [
     "data-class nesting depth of an input = the number of data-class instances on the longest root-to-leaf path (the root "
     "counts 1), as in the documentation example 'max_depth: 3 exceed: 4'",
@@ -45,6 +47,14 @@ DECLS = {
     "logical": ("class N(Schema):\n{opt}    v: int = 0\n    nxt: any_of('N', None) = None\n", "N", "nxt"),
     "mutual": ("class N(Schema):\n{opt}    v: int = 0\n    m: Optional['M'] = None\n"
                "class M(Schema):\n{opt}    w: int = 0\n    n: Optional[N] = None\n", "N", "m/n"),
+    # other ways of declaring a data class
+    "decorator": ("@utype.dataclass\nclass N:\n{opt}    v: int = 0\n    nxt: Optional['N'] = None\n", "N", "nxt"),
+    "dataclass-base": ("class N(DataClass):\n{opt}    v: int = 0\n    kids: List['N'] = Field(default_factory=list)\n", "N", "kids[]"),
+    # a declared __init__ is the input parser of the class: its parameters are parsed at the nesting level of the instance
+    "custom-init": ("@utype.dataclass\nclass N:\n{opt}    v: int = 0\n    nxt: Optional['N'] = None\n"
+                    "    def __init__(self, v: int = 0, nxt: Optional['N'] = None):\n        self.v = v\n        self.nxt = nxt\n", "N", "nxt"),
+    "custom-init-schema": ("class N(Schema):\n{opt}    v: int = 0\n    kids: List['N'] = Field(default_factory=list)\n"
+                           "    def __init__(self, v: int = 0, kids: List['N'] = ()):\n        super().__init__(v=v, kids=kids)\n", "N", "kids[]"),
     "list-optional": ("class N(Schema):\n{opt}    v: int = 0\n    kids: List[Optional['N']] = Field(default_factory=list)\n", "N", "kids[]"),
 }
 LIMITS = [None, 1, 2, 3, 4]
@@ -66,6 +76,12 @@ def load(src):
     return mod
 
 
+def parse(cls, data):
+    """the conversion under test: Schema.__from__ where it exists, else the keyword form of the data class"""
+    f = getattr(cls, "__from__", None)
+    return f(data) if f else cls(**data)
+
+
 def unload(mod):
     sys.modules.pop(mod.__name__, None)
     try:
@@ -75,27 +91,38 @@ def unload(mod):
         pass
 
 
-def build_input(how, depth, index=0, key="k", level=0):
+def _wrap(child, wrap):
+    """the nested data-class value in the one-element sequence shape of query strings / multipart forms"""
+    return [child] if wrap == "list" else (child,) if wrap == "tuple" else child
+
+
+def build_input(how, depth, index=0, key="k", level=0, wrap=None):
     """nested mapping of data-class depth `depth`"""
     node = {"v": level}
     if depth <= 1:
         return node
     if how == "nxt":
-        node["nxt"] = build_input(how, depth - 1, index, key, level + 1)
+        node["nxt"] = _wrap(build_input(how, depth - 1, index, key, level + 1, wrap), wrap)
     elif how == "kids[]":
-        child = build_input(how, depth - 1, index, key, level + 1)
+        child = _wrap(build_input(how, depth - 1, index, key, level + 1, wrap), wrap)
         pad = [{"v": 100 + i} for i in range(index)]
         node["kids"] = pad + [child]
     elif how == "kids{}":
-        child = build_input(how, depth - 1, index, key, level + 1)
+        child = _wrap(build_input(how, depth - 1, index, key, level + 1, wrap), wrap)
         node["kids"] = {key: child}
         if index:
             node["kids"]["pad"] = {"v": 100}
     elif how == "m/n":
         # N -> M -> N: every data class counts
         node = {"v": level} if level % 2 == 0 else {"w": level}
-        node["m" if level % 2 == 0 else "n"] = build_input(how, depth - 1, index, key, level + 1)
+        node["m" if level % 2 == 0 else "n"] = _wrap(build_input(how, depth - 1, index, key, level + 1, wrap), wrap)
     return node
+
+
+def _unwrap(x):
+    if isinstance(x, (list, tuple)) and len(x) == 1:
+        return x[0]
+    return x
 
 
 def ref_depth(x, seen=None):
@@ -106,14 +133,15 @@ def ref_depth(x, seen=None):
     if isinstance(x, dict) and ("v" in x or "w" in x or not x):
         best = 1
         for k, val in x.items():
-            if k in ("nxt", "m", "n") and isinstance(val, dict):
-                d = ref_depth(val, seen + (id(x),))
+            if k in ("nxt", "m", "n") and isinstance(_unwrap(val), dict):
+                d = ref_depth(_unwrap(val), seen + (id(x),))
                 if d is None:
                     return None
                 best = max(best, 1 + d)
             elif k == "kids":
                 children = list(val.values()) if isinstance(val, dict) else list(val)
                 for c in children:
+                    c = _unwrap(c)
                     if isinstance(c, dict):
                         d = ref_depth(c, seen + (id(x),))
                         if d is None:
@@ -128,7 +156,7 @@ def bounds(tier):
 
 
 def shards(tier):
-    return [("depth", d) for d in DECLS] + [("cost", c) for c in COST_DECLS]
+    return [("depth", d) for d in DECLS] + [("cost", c, o) for c in COST_DECLS for o in COST_OPTS]
 
 
 def run_shard(shard, tier):
@@ -136,7 +164,7 @@ def run_shard(shard, tier):
     if shard[0] == "depth":
         _depth(acc, shard[1], tier)
     else:
-        _cost(acc, shard[1], tier)
+        _cost(acc, shard[1], shard[2], tier)
     return acc
 
 
@@ -156,6 +184,11 @@ def _depth(acc, dname, tier):
         for depth in range(1, 7):
             for index, key in positions:
                 cases.append((f"depth={depth},index={index},key={key!r}", build_input(how, depth, index, key)))
+        # the nested value wrapped in a one-element list / tuple at every level (the documented query-string shape):
+        # the wrapper is not a data class and must not change the count
+        for wrap in ("list", "tuple"):
+            for depth in range(2, 7):
+                cases.append((f"depth={depth},index=0,key='k',wrap={wrap!r}", build_input(how, depth, 0, "k", wrap=wrap)))
         # the other union branch / a scalar at the nested position
         if how == "nxt" and dname != "plain-default":
             cases.append(("scalar-branch", {"v": 0, "nxt": None} if dname != "union" else {"v": 0, "nxt": 5}))
@@ -171,6 +204,16 @@ def _depth(acc, dname, tier):
             inner = {"w": 1, "n": cyc}
             cyc["m"] = inner
         cases.append(("cyclic", cyc))
+        wcyc = {"v": 0}
+        if how == "nxt":
+            wcyc["nxt"] = [wcyc]
+        elif how == "kids[]":
+            wcyc["kids"] = [[wcyc]]
+        elif how == "kids{}":
+            wcyc["kids"] = {"k": [wcyc]}
+        else:
+            wcyc["m"] = [{"w": 1, "n": [wcyc]}]
+        cases.append(("cyclic-wrapped", wcyc))
         if how == "kids[]":
             lst = []
             lst.append({"v": 1, "kids": lst})
@@ -184,7 +227,7 @@ def _depth(acc, dname, tier):
             acc.states += 1
             acc.transitions += 1
             want = ref_depth(data)
-            st, r = call_guarded(lambda: cls.__from__(data), wall_s=3.0, step_budget=1_500_000)
+            st, r = call_guarded(lambda: parse(cls, data), wall_s=3.0, step_budget=1_500_000)
             acc.evaluations += 1
             got = "ok" if st == "ok" else ("perr" if isinstance(r, uexc.ParseError) else
                                            "recursion" if isinstance(r, RecursionError) else f"other:{type(r).__name__ if st == 'exc' else st}")
@@ -198,10 +241,10 @@ def _depth(acc, dname, tier):
                     "import sys", "sys.path.insert(0, '/verif')", "from utmc.props import c18",
                     f"mod = c18.load({src!r})", f"cls = mod.__dict__[{root!r}]",
                     (f"data = c18.build_input({how!r}, {label.split(',')[0].split('=')[1]}, "
-                     f"{label.split(',')[1].split('=')[1]}, {label.split('key=')[1]})") if label.startswith("depth=") else
+                     f"{label.split(',')[1].split('=')[1]}, {label.split('key=')[1].replace('wrap=', 'wrap=')})") if label.startswith("depth=") else
                     f"data = None  # {label}: see the summary for the construction",
                     "print(mod.__name__, data)",
-                    "try:", "    print(cls.__from__(data)); got = 'ok'", "except Exception as e:",
+                    "try:", "    print(c18.parse(cls, data)); got = 'ok'", "except Exception as e:",
                     "    print(type(e).__name__, str(e)[:200]); got = 'rejected'",
                     f"print('reference depth', c18.ref_depth(data), 'limit', {limit!r})",
                     f"sys.exit(0 if (got == 'ok') == (c18.ref_depth(data) is not None and ({limit!r} is None or c18.ref_depth(data) <= {limit!r})) else 1)"]) + "\n"
@@ -227,15 +270,32 @@ def _depth(acc, dname, tier):
 # ------------------------------------------------------------------------------------------------ cost
 
 COST_DECLS = {
-    "chain-optional": ("class N(Schema):\n    leaf: Leaf\n    nxt: Optional['N'] = None\n", "N", ["nxt"]),
-    "chain-union-int": ("class N(Schema):\n    leaf: Leaf\n    nxt: Union['N', int] = 0\n", "N", ["nxt"]),
-    "tree-list": ("class N(Schema):\n    leaf: Leaf\n    kids: List['N'] = Field(default_factory=list)\n", "N", ["kids[]"]),
-    "tree-dict": ("class N(Schema):\n    leaf: Leaf\n    kids: Dict[str, 'N'] = Field(default_factory=dict)\n", "N", ["kids{}"]),
-    "union-two-classes": ("class P(Schema):\n    leaf: Leaf\n    nxt: Union['P', 'Q', None] = None\n"
-                          "class Q(Schema):\n    leaf: Leaf\n    tag: int\n    nxt: Union['P', 'Q', None] = None\n", "P", ["nxt"]),
-    "logical-two-classes": ("class P(Schema):\n    leaf: Leaf\n    nxt: any_of('P', 'Q', None) = None\n"
-                            "class Q(Schema):\n    leaf: Leaf\n    tag: int\n    nxt: any_of('P', 'Q', None) = None\n", "P", ["nxt"]),
+    "chain-optional": ("class N(Schema):\n{opt}    leaf: Leaf\n    nxt: Optional['N'] = None\n", "N", ["nxt"]),
+    "chain-union-int": ("class N(Schema):\n{opt}    leaf: Leaf\n    nxt: Union['N', int] = 0\n", "N", ["nxt"]),
+    "chain-union-int-first": ("class N(Schema):\n{opt}    leaf: Leaf\n    nxt: Union[int, 'N', None] = None\n", "N", ["nxt"]),
+    "tree-list": ("class N(Schema):\n{opt}    leaf: Leaf\n    kids: List['N'] = Field(default_factory=list)\n", "N", ["kids[]"]),
+    "tree-dict": ("class N(Schema):\n{opt}    leaf: Leaf\n    kids: Dict[str, 'N'] = Field(default_factory=dict)\n", "N", ["kids{}"]),
+    "tree-union-collections": ("class N(Schema):\n{opt}    leaf: Leaf\n    kids: Union[List['N'], Dict[str, 'N'], None] = None\n", "N", ["kids[]"]),
+    "union-two-classes": ("class P(Schema):\n{opt}    leaf: Leaf\n    nxt: Union['P', 'Q', None] = None\n"
+                          "class Q(Schema):\n{opt}    leaf: Leaf\n    tag: int\n    nxt: Union['P', 'Q', None] = None\n", "P", ["nxt"]),
+    "logical-two-classes": ("class P(Schema):\n{opt}    leaf: Leaf\n    nxt: any_of('P', 'Q', None) = None\n"
+                            "class Q(Schema):\n{opt}    leaf: Leaf\n    tag: int\n    nxt: any_of('P', 'Q', None) = None\n", "P", ["nxt"]),
 }
+# the strictness preferences decide which of the union's stages exist: with both declared there is nothing to retry
+COST_OPTS = {
+    "default": {},
+    "no_data_loss": dict(no_data_loss=True),
+    "no_explicit_cast": dict(no_explicit_cast=True),
+    "both-strict": dict(no_data_loss=True, no_explicit_cast=True),
+}
+
+
+def _opt_line(opts):
+    if not opts:
+        return ""
+    return "    __options__ = Options(" + ", ".join(f"{k}={v!r}" for k, v in opts.items()) + ")\n"
+
+
 LEAF_SRC = ("COUNT = [0]\n"
             "class Leaf:\n    def __init__(self, v):\n        self.v = v\n"
             "@utype.register_transformer(Leaf)\n"
@@ -273,15 +333,46 @@ def cost_input(how, depth, width, leaf, bottom_leaf):
     return node, total
 
 
-def _cost(acc, cname, tier):
+def _judge_cost(acc, cname, oname, family, label, cls, count, data, n, prev_w, script_lines):
+    """one counted conversion; returns (exploded?, leaf conversions)"""
+    count[0] = 0
+    acc.states += 1
+    acc.transitions += 1
+    st, r = call_guarded(lambda: parse(cls, data), wall_s=3.0, step_budget=1_500_000)
+    w = count[0]
+    acc.evaluations += 1
+    acc.outcomes["ok" if st == "ok" else "rejected" if st == "exc" else st] += 1
+    bound = 4 * n * n + 8
+    acc.nontrivial_add((cname, oname, family, label))
+    key = f"max_leaf_conversions:{cname}:{oname}:{family}"
+    acc.extra[key] = max(acc.extra.get(key, 0), w)
+    if not (st == "nonterm" or w > bound):
+        return False, w
+    # the growth factor per nesting level identifies the mechanism (x2 / x3: the union's stages, x6: three stages
+    # times two data-class members)
+    growth = f"x{round(w / prev_w)}" if prev_w else "x?"
+    fp = f"C18|cost|{cname}|opts={oname}|{family}|growth-{growth}-per-level"
+    script = "\n".join(["import sys", "sys.path.insert(0, '/verif')", "from utmc.props import c18"] + script_lines + [
+        "mod.COUNT[0] = 0", "try:", "    c18.parse(cls, data)", "except Exception as e:", "    print(type(e).__name__)",
+        "print('nodes', n, 'leaf conversions', mod.COUNT[0], 'bound', 4 * n * n + 8)",
+        "sys.exit(1 if mod.COUNT[0] > 4 * n * n + 8 else 0)"]) + "\n"
+    acc.violation(fp, f"declaration '{cname}' options {oname} family {family} {label}: {n} input nodes cost {w} "
+                      f"leaf conversions (bound {bound})" + (" and did not finish within the step budget" if st == "nonterm" else ""),
+                  script)
+    return True, w
+
+
+def _cost(acc, cname, oname, tier):
     tmpl, root, hows = COST_DECLS[cname]
     how = hows[0]
-    src = LEAF_SRC + tmpl
+    opts = COST_OPTS[oname]
+    src = LEAF_SRC + tmpl.format(opt=_opt_line(opts))
     mod = load(src)
     cls = mod.__dict__[root]
     count = mod.__dict__["COUNT"]
     widths = [1] if how == "nxt" else [1, 2, 3]
-    maxdepth = 8
+    # width-1 chains go to depth 12: a doubling per level crosses 4 n^2 + 8 only at depth 10
+    maxdepth = 12
     for family, leaf, bottom in (("valid", 1, 1), ("lenient-only", "2", "2"), ("invalid-bottom-leaf", 1, "bad")):
         for width in widths:
             prev_w = None
@@ -289,34 +380,38 @@ def _cost(acc, cname, tier):
                 if width ** depth > 400:
                     continue
                 data, n = cost_input(how, depth, width, leaf, bottom)
-                count[0] = 0
-                acc.states += 1
-                acc.transitions += 1
-                st, r = call_guarded(lambda: cls.__from__(data), wall_s=3.0, step_budget=1_500_000)
-                w = count[0]
-                acc.evaluations += 1
-                acc.outcomes["ok" if st == "ok" else "rejected" if st == "exc" else st] += 1
-                bound = 4 * n * n + 8
-                acc.nontrivial_add((cname, family, width, depth))
-                acc.extra[f"max_leaf_conversions:{cname}:{family}"] = max(acc.extra.get(f"max_leaf_conversions:{cname}:{family}", 0), w)
-                growth = f"x{round(w / prev_w)}" if prev_w else "x?"
-                if not (st == "nonterm" or w > bound):
-                    prev_w = w
-                if st == "nonterm" or w > bound:
-                    # the growth factor per nesting level identifies the mechanism (x3: the three union stages,
-                    # x6: three stages times two data-class members)
-                    fp = f"C18|cost|{cname}|{family}|growth-{growth}-per-level"
-                    script = "\n".join([
-                        "import sys", "sys.path.insert(0, '/verif')", "from utmc.props import c18",
-                        f"mod = c18.load(c18.LEAF_SRC + {tmpl!r})", f"cls = mod.__dict__[{root!r}]",
-                        f"data, n = c18.cost_input({how!r}, {depth}, {width}, {leaf!r}, {bottom!r})", "mod.COUNT[0] = 0",
-                        "try:", "    cls.__from__(data)", "except Exception as e:", "    print(type(e).__name__)",
-                        "print('nodes', n, 'leaf conversions', mod.COUNT[0], 'bound', 4 * n * n + 8)",
-                        "sys.exit(1 if mod.COUNT[0] > 4 * n * n + 8 else 0)"]) + "\n"
-                    acc.violation(fp, f"declaration '{cname}' family {family} depth={depth} width={width}: {n} input nodes cost {w} "
-                                      f"leaf conversions (bound {bound})" + (" and did not finish within the step budget" if st == "nonterm" else ""),
-                                  script)
+                boom, w = _judge_cost(acc, cname, oname, family, f"depth={depth} width={width}", cls, count, data, n, prev_w, [
+                    f"mod = c18.load({src!r})", f"cls = mod.__dict__[{root!r}]",
+                    f"data, n = c18.cost_input({how!r}, {depth}, {width}, {leaf!r}, {bottom!r})"])
+                if boom:
                     break       # deeper inputs of an exploding family only cost time
+                prev_w = w
                 if depth == maxdepth:
-                    acc.sample(dict(declaration=cname, family=family, width=width, depth=depth, nodes=n, leaf_conversions=w))
+                    acc.sample(dict(declaration=cname, options=oname, family=family, width=width, depth=depth, nodes=n, leaf_conversions=w))
     unload(mod)
+    # a self-containing input cut off by max_depth = d: the work must stay polynomial in d
+    prev_w = None
+    for d in range(2, 13):
+        src = LEAF_SRC + tmpl.format(opt=_opt_line(dict(opts, max_depth=d)))
+        mod = load(src)
+        cls = mod.__dict__[root]
+        count = mod.__dict__["COUNT"]
+        boom, w = _judge_cost(acc, cname, oname, "cyclic-cut-by-limit", f"max_depth={d}", cls, count, cyclic_input(how), d, prev_w, [
+            f"mod = c18.load({src!r})", f"cls = mod.__dict__[{root!r}]", f"data, n = c18.cyclic_input({how!r}), {d}"])
+        unload(mod)
+        if boom:
+            break
+        prev_w = w
+        if d == 12:
+            acc.sample(dict(declaration=cname, options=oname, family="cyclic-cut-by-limit", max_depth=d, leaf_conversions=w))
+
+
+def cyclic_input(how):
+    cyc = {"leaf": 1}
+    if how == "nxt":
+        cyc["nxt"] = cyc
+    elif how == "kids[]":
+        cyc["kids"] = [cyc]
+    else:
+        cyc["kids"] = {"k0": cyc}
+    return cyc
